@@ -438,6 +438,7 @@ CODES = {
     121: "C07 safe reported twice", 122: "C07 safe without trusted vouching", 123: "C07 safe despite known conflict",
     124: "C07 safe before delay", 125: "C07 safe for untracked tx", 126: "C07 safe on arrival (not local)",
     127: "C07/C11 the delay check notifies about a tx that is confirmed in the chain",
+    128: "C07/C11 after a restart the tracked set does not carry the first-seen times that were saved",
     131: "C03 delivery before in sync", 141: "C05 new conflicting tx not unsafe", 142: "C05 earlier conflicting tx not reported unsafe",
     143: "C03 matching tx not delivered", 144: "C05 re-seen delivered tx with new conflict not reported unsafe", 151: "C06 block not announced first", 152: "C06 losing tx not cancelled exactly once",
     153: "C03/C04/C11 block tx not notified with proof", 154: "C04 refused block delivered something",
@@ -451,8 +452,8 @@ PROPERTY_CODES = {
     "C03": {111, 112, 113, 114, 115, 131, 143, 153},
     "C05": {103, 141, 142, 144},
     "C06": {151, 152, 154, 155},
-    "C07": {101, 102, 103, 121, 122, 123, 124, 125, 126, 127, 161, 162},
-    "C11": {113, 121, 127, 153, 171},
+    "C07": {101, 102, 103, 121, 122, 123, 124, 125, 126, 127, 128, 161, 162},
+    "C11": {113, 121, 127, 128, 153, 171},
 }
 
 # Observation 181 (monitor "stale", TxFlowSpec.txflow_stale_monitor): a transaction whose confirming block was orphaned
